@@ -363,7 +363,7 @@ package tds
 //@   ghost-update at exit: packet.$pos := old(queue.$end)
 //@   ghost-update at exit: queue.$end := old(queue.$end) + len(packet.Data)
 //@   ghost-update at exit: queue.$r := pqpos(queue)
-//@   ensures [appended] queue.$end == old(queue.$end) + len(packet.Data) && (queue.$readable ==> queue.$r == old(queue.$r))
+//@   ensures [appended] queue.$end == old(queue.$end) + len(packet.Data) && (queue.$readable ==> queue.$r == old(queue.$r)) by queue.$readable ==> old(pqs3at(queue, queue.indexPacket)) && old(pqs1at(queue, queue.indexPacket))
 //@   ensures [eom] queue.recvEOM == (old(queue.recvEOM) || packet.Header.Status % 2 == 1)
 //@   ensures [content] forall k int :: 0 <= k && k < len(packet.Data) ==> queue.$in[old(queue.$end) + k] == packet.Data[k]
 //@   ensures [prefix] forall k int :: k < old(queue.$end) ==> queue.$in[k] == old(queue.$in[k])
@@ -404,6 +404,7 @@ package tds
 //@   cut typeinv PacketQueue/elems by old(pqelem(this, j + pqdropped(this)))
 //@   cut typeinv PacketQueue/s1 by this.$readable ==> old(pqs1at(this, j + pqdropped(this)))
 //@   cut typeinv PacketQueue/s3 by this.$readable ==> old(pqs3at(this, j + pqdropped(this)))
+//@   cut typeinv PacketQueue/pos by this.$readable ==> old(pqs3at(this, this.indexPacket)) && old(pqs1at(this, this.indexPacket)) && old(pqs1at(this, this.indexPacket + 1))
 //@   cut typeinv PacketQueue/t1 by this.$writable ==> old(pqt1at(this, j + pqdropped(this)))
 //@   cut typeinv PacketQueue/tdist by this.$writable ==> old(pqtdist(this, j + pqdropped(this), k + pqdropped(this)))
 //@   cut typeinv PacketQueue/tchain by this.$writable ==> old(pqtchain(this, j + pqdropped(this)))
@@ -418,11 +419,11 @@ package tds
 //@   ghost-update at exit: queue.$dry := old(queue.$dry) || err != nil
 //@   loop 0:
 //@     invariant [bounds] 0 <= bsOffset && bsOffset < n && len(bs) == n && fresh(bs)
-//@     invariant [pos] pqvalid(queue, queue.indexPacket, queue.indexData) && pqpos(queue) == old(queue.$r) + bsOffset
+//@     invariant [pos] pqvalid(queue, queue.indexPacket, queue.indexData) && pqpos(queue) == old(queue.$r) + bsOffset by@keep queue.$readable ==> head(pqs3at(queue, queue.indexPacket)) && head(pqs1at(queue, queue.indexPacket)) && head(pqs1at(queue, queue.indexPacket + 1))
 //@     invariant [copied] forall k int :: 0 <= k && k < bsOffset ==> bs[k] == queue.$in[old(queue.$r) + k] by@keep head(pqc(queue, queue.indexPacket, queue.indexData + (k - bsOffset)))
 //@     invariant [content] queue.$readable ==> pqcontent(queue)
 //@     exitinv [copied] forall k int :: 0 <= k && k < bsOffset ==> bs[k] == queue.$in[old(queue.$r) + k] by@keep head(pqc(queue, queue.indexPacket, queue.indexData + (k - bsOffset)))
-//@     exitinv [pos] len(bs) == n && pqvalid(queue, queue.indexPacket, queue.indexData) && pqpos(queue) == old(queue.$r) + bsOffset
+//@     exitinv [pos] len(bs) == n && pqvalid(queue, queue.indexPacket, queue.indexData) && pqpos(queue) == old(queue.$r) + bsOffset by queue.$readable ==> head(pqs3at(queue, queue.indexPacket)) && head(pqs1at(queue, queue.indexPacket)) && head(pqs1at(queue, queue.indexPacket + 1))
 
 //@ # Read is PacketQueue's io.Reader face; it is specified over the queue's own stream
 //@ # (the transport ghosts of io.Reader do not apply to it).
